@@ -64,6 +64,7 @@ def run(ctx):
         "data callables and Namespace objects handed in by the caller may of course be modified through their own methods",
     ]
     ctx.proof("C29")
+    ctx.proof("C29exec")
 
     # ---------------- generate the template groups of this run
     n_groups = ctx.size(110, 700)
@@ -101,6 +102,7 @@ def run(ctx):
     krt_module_cache(ctx, jinja2)
 
     thread_gate_probes(ctx, jinja2)
+    exec_model_tie(ctx, jinja2)
 
     # ---------------- O
     sys_switch = sys.getswitchinterval()
@@ -170,6 +172,160 @@ def fresh_process_refs(ctx, groups, refs):
                         "in_process": refs[(gi, mode)][n][:300], "fresh_process": got[:300]},
                        "the isolated render in this process differs from the same render in a brand-new interpreter "
                        "(state leaks between renders at module / class level)", FC.special_signature(templates[n]) or f"fresh-process render differs: {mode}")
+        else:
+            ctx.validated()
+
+
+# --------------------------------------------------------------------------- K: extracted FramesExec vs engine
+LIB_EXEC = "{% set v = g0 + 1 %}{% macro f(x) %}{{ x + g1 }}{% endmacro %}"
+
+
+def _gen_exp(rng, have_own, have_mod, depth=2):
+    k = rng.random()
+    if depth <= 0 or k < 0.45:
+        choices = [("k", rng.randint(0, 9)), ("d", rng.randint(0, 1)), ("dx",), ("g", rng.randint(0, 1)), ("t",)]
+        choices += [("o", c) for c in have_own]
+        if have_mod:
+            choices += [("mv",), ("mv",)]
+        return rng.choice(choices)
+    if k < 0.6 and have_mod:
+        return ("mf", _gen_exp(rng, have_own, have_mod, depth - 1))
+    return ("+", _gen_exp(rng, have_own, have_mod, depth - 1), _gen_exp(rng, have_own, have_mod, depth - 1))
+
+
+def _exp_text(e):
+    t = e[0]
+    if t == "k":
+        return str(e[1]), f"k{e[1]}"
+    if t == "d":
+        return f"d{e[1]}", f"rD.{e[1]}"
+    if t == "dx":
+        return "dd.x", "rD.2"
+    if t == "g":
+        return f"g{e[1]}", f"rE.{e[1]}"
+    if t == "t":
+        return "tg0", "rT.0"
+    if t == "o":
+        return f"p{e[1]}", f"o{e[1]}"
+    if t == "mv":
+        return "L.v", "tM.0"
+    if t == "mf":
+        a, b = _exp_text(e[1])
+        return f"(L.f({a})|int)", f"{b}_rE.1_+"
+    a1, b1 = _exp_text(e[1])
+    a2, b2 = _exp_text(e[2])
+    return f"({a1} + {a2})", f"{b1}_{b2}_+"
+
+
+def _gen_render(rng):
+    """-> (template source, groups) ; groups = list of lists of model steps, one group per advance of generate()"""
+    src, groups, cur = "", [], []
+    own, mod, nout = [], False, 0
+    for _ in range(rng.randint(2, 6)):
+        k = rng.random()
+        if k < 0.2 and not mod:
+            src += "{% import 'lib.html' as L %}"
+            cur.append("f,M.0")
+            mod = True
+        elif k < 0.45:
+            c = rng.randint(0, 2)
+            a, b = _exp_text(_gen_exp(rng, own, mod))
+            src += "{% set p" + str(c) + " = " + a + " %}"
+            cur.append(f"p,{c},{b}")
+            if c not in own:
+                own.append(c)
+        elif k < 0.55:
+            c = rng.randint(0, 2)
+            src += ("{% set n" + str(c) + " = namespace(dd) %}{% set n" + str(c) + ".x = n" + str(c) + ".x + 1 %}"
+                    "{% set p" + str(c) + " = n" + str(c) + ".x %}")
+            cur.append(f"p,{c},rD.2_k1_+")
+            if c not in own:
+                own.append(c)
+        else:
+            a, b = _exp_text(_gen_exp(rng, own, mod))
+            while not any(ch.isalpha() for ch in a):         # a constant output would be folded into its neighbours
+                a, b = _exp_text(("+", _gen_exp(rng, own, mod), ("d", rng.randint(0, 1))))
+            src += "{{ " + a + " }}"
+            cur.append(f"p,{100 + nout},{b}")
+            nout += 1
+            groups.append(cur)
+            cur = []
+    groups.append(cur)          # what runs when the generator is advanced past its last chunk
+    return src, groups, nout
+
+
+def exec_model_tie(ctx, jinja2):
+    """the extracted concrete model (FramesExec.crun = FramesSched.run_sched on the denotation) against the engine:
+    2-3 renders advanced chunk by chunk through Template.generate() in a random interleaving; per-render chunk values,
+    final data / globals and the module cache cell must be what the model computes"""
+    n = ctx.size(300, 3000)
+    cases = []
+    for ci in range(n):
+        rng = ctx.rng
+        nr = rng.choice([2, 2, 3])
+        renders = [_gen_render(rng) for _ in range(nr)]
+        vals = {"d0": rng.randint(0, 9), "d1": rng.randint(0, 9), "x": rng.randint(0, 9), "g0": rng.randint(0, 9),
+                "g1": rng.randint(0, 9), "tg0": rng.randint(0, 9)}
+        tokens = [r for r, (_, groups, _) in enumerate(renders) for _ in groups]
+        rng.shuffle(tokens)
+        cases.append((renders, vals, tokens))
+    lines, reals = [], []
+    for renders, vals, tokens in cases:
+        # ---- model line
+        pos = [0] * len(renders)
+        sched = []
+        for r in tokens:
+            for st in renders[r][1][pos[r]]:
+                sched.append(f"{r + 1}:{st}")
+            pos[r] += 1
+        init = f"D.0={vals['d0']} D.1={vals['d1']} D.2={vals['x']} E.0={vals['g0']} E.1={vals['g1']} T.0={vals['tg0']}"
+        queries = []
+        for r, (_, _, nout) in enumerate(renders):
+            queries += [f"P{r + 1}.{100 + i}" for i in range(nout)]
+        queries += ["D.0", "D.1", "D.2", "E.0", "E.1", "T.0", "M.0"]
+        lines.append(init + " | " + " ".join(sched) + " | " + " ".join(queries))
+        # ---- engine
+        templates = {"lib.html": LIB_EXEC}
+        for r, (src, _, _) in enumerate(renders):
+            templates[f"r{r}.html"] = src
+        env = jinja2.Environment(loader=jinja2.DictLoader(templates))
+        env.globals.update(g0=vals["g0"], g1=vals["g1"])
+        tglob = {"tg0": vals["tg0"]}
+        lib_t = env.get_template("lib.html", globals=tglob)
+        data = {"d0": vals["d0"], "d1": vals["d1"], "dd": {"x": vals["x"]}}
+        outs = [[] for _ in renders]
+        err = None
+        try:
+            gens = [env.get_template(f"r{r}.html", globals=tglob).generate(**data) for r in range(len(renders))]
+            for r in tokens:
+                try:
+                    outs[r].append(int(next(gens[r])))
+                except StopIteration:
+                    pass
+        except Exception as e:  # noqa
+            err = type(e).__name__
+        mod = lib_t._module
+        final = [data["d0"], data["d1"], data["dd"]["x"], env.globals["g0"], env.globals["g1"], tglob["tg0"],
+                 int(getattr(mod, "v")) if mod is not None else 0]
+        reals.append((outs, final, err))
+    preds = ctx.driver("framesexec", lines)
+    for (renders, vals, tokens), line, pred, (outs, final, err) in zip(cases, lines, preds, reals):
+        wf, *nums = pred.split()
+        expect = [int(x) for x in nums]
+        got = [v for o in outs for v in o] + final
+        case = {"krt": "exec model", "templates": [r[0] for r in renders], "values": vals, "schedule": tokens, "model_line": line}
+        imports = sum(1 for r in renders if "import" in r[0])
+        ctx.case(key=("exec", line) if imports and len(set(tokens[:4])) > 1 else None,
+                 sample=dict(case, engine=got, model=expect) if imports >= 2 and len(ctx.samples) < 6 else None)
+        ctx.count("exec_model_cases")
+        if wf != "wf=1":
+            ctx.model_mismatch("K exec model: generated schedule is not well-formed", case, "wf=1", wf, None)
+        elif err is not None or got != expect:
+            inputs_changed = final[:6] != [vals["d0"], vals["d1"], vals["x"], vals["g0"], vals["g1"], vals["tg0"]]
+            ctx.model_mismatch("K exec model (FramesExec.crun vs engine, chunk-level interleaving)", dict(case, engine=got, model=expect, error=err),
+                               expect, got, "inputs modified by rendering" if inputs_changed else
+                               ("interleaved renders differ from the model's (= isolated) results" if err is None else "render raised " + err),
+                               "exec model: inputs modified" if inputs_changed else "exec model: interleaved result differs")
         else:
             ctx.validated()
 
@@ -400,6 +556,9 @@ def replay(ctx, data):
     if data.get("kind") != "failing-input" or case is None:
         print("replay: names a broken theorem / obligation / correspondence:", data.get("broken"))
         return run(ctx)
+    if case.get("krt") == "exec model":
+        exec_model_tie(ctx, jinja2)
+        return
     if case.get("krt") == "thread gate":
         thread_gate_probes(ctx, jinja2)
         return
